@@ -159,7 +159,11 @@ func C05(c *core.Ctx) {
 		try("endpoint", "PCK CRL body is garbage", true, true, set(pckURL, []byte("garbage")), 0)
 		try("endpoint", "PCK CRL body is empty", true, true, set(pckURL, nil), 0)
 		try("endpoint", "PCK CRL body is a certificate", true, true, set(pckURL, pki.Inter.DER), 0)
-		try("endpoint", "PCK CRL header missing", true, true, func(resp map[string]world.Resp) { x := resp[pckURL]; x.Header = map[string][]string{}; resp[pckURL] = x }, 0)
+		try("endpoint", "PCK CRL header missing", true, true, func(resp map[string]world.Resp) {
+			x := resp[pckURL]
+			x.Header = map[string][]string{}
+			resp[pckURL] = x
+		}, 0)
 		try("endpoint", "PCK CRL header lists TCB signer chain", true, true, func(resp map[string]world.Resp) {
 			x := resp[pckURL]
 			x.Header = map[string][]string{world.PckCrlIssuerChainHeader: {pki.IssuerChainHeader(pki.TcbSigner, pki.Root)}}
